@@ -31,6 +31,9 @@ func c04Size(r *core.Rand) int {
 	case v < 98:
 		return r.Range(5000, 70000)
 	default:
+		if r.Chance(1, 8) {
+			return r.Range(8<<20+1, 12<<20) // beyond the thresholds growing buffers are built around
+		}
 		return r.Range(1<<20, 3<<20)
 	}
 }
@@ -43,7 +46,7 @@ func c04Input(r *core.Rand) inputs.Input {
 	in := inputs.Input{N: n, Seed: r.Uint64() % 1000}
 	switch v := r.Intn(100); {
 	case v < 32: // JSON scanner users
-		fams := []string{"json", "json_trunc", "json_bad", "geojson", "geojson", "har", "gltf", "json_deep", "json_deep", "json_nest", "json_wide"}
+		fams := []string{"json", "json_trunc", "json_bad", "geojson", "geojson", "har", "gltf", "json_deep", "json_deep", "json_nest", "json_wide", "json_esc", "json_esc"}
 		in.Fam = fams[r.Intn(len(fams))]
 		in.V = r.Intn(8)
 		switch in.Fam {
@@ -205,6 +208,9 @@ func (c *c04) Plan(seed uint64, tier string, worker, workers, idx int) *Plan {
 	p := &Plan{Prop: "C04", Limit0: c04Limits[r.Intn(len(c04Limits))], MaxSteps: 60000000}
 	if r.Chance(1, 12) {
 		p.Limit0 = bigLimit(r)
+	}
+	if r.Chance(1, 40) {
+		p.Limit0 = []uint32{8<<20 + 1, 9 << 20, 10<<20 + 3}[r.Intn(3)] // a limit that inputs of 8-12 MiB exceed
 	}
 	p.Pool = []string{"adversarial", "adversarial", "steal", "steal", "lifo", "fifo"}[r.Intn(6)]
 	p.Sched = core.SchedSpec{Kind: []string{"random", "pct", "rtc"}[r.Intn(3)], D: r.Range(1, 3), Preempt: 30 + r.Intn(400), Horizon: 200}
